@@ -26,7 +26,7 @@ ASSUMPTIONS = [
     "one executor object is used from one thread",
 ]
 BUDGET = {"quick": {"shards": 8, "seconds": 40}, "thorough": {"shards": 16, "seconds": 420}}
-ARGPOOL = [0, 1, "a", None, {"T": [1, 2]}, "BOOM"]
+ARGPOOL = [0, 1, "a", None, {"T": [1, 2]}, "BOOM", {"D": {"a": 1}}]
 
 
 @st.composite
@@ -46,6 +46,14 @@ def programs(draw: Any) -> Dict[str, Any]:
             if not f.get("setup") and f.get("kind") not in ("tup", "dict"):
                 f["kind"] = "const"
                 f["val"] = draw(st.sampled_from([0, 1, "", "x", None]))
+    if bad_ and draw(st.booleans()):
+        # data: a site reads p0["a"] - fine for a mapping, a TypeError raised by the scheduler (not by a node) for a
+        # tuple, a string or None
+        n0 = len(P["body"])
+        P["fns"]["pick"] = {"kind": "term", "res": "thread"}
+        P["body"].append({"k": "call", "fn": "pick", "site": gen.site(n0), "mark": True, "args": [["i", ["p", "p0"], "a"]],
+                          "kwargs": {}, "active": None, "unpack": None, "tags": [], "out": f"v{n0}"})
+        P["ret"][1].append(["v", f"v{n0}"])
     # the bomb: a site that receives p0 first
     n = len(P["body"])
     P["fns"]["bomb"] = {"kind": "bomb", "res": draw(st.sampled_from(list(gen.RES)))}
